@@ -158,6 +158,25 @@ C05_URLS = [
 ]
 
 
+# ---------------------------------------------------------------- LRU grammar (C07, C11, C12, C13)
+LRU = {
+    "scheme": [cp(x) for x in ["http://", "https://", ""]],
+    "userinfo": [cp(x) for x in ["", "user@", "user:mdp@", "U-1:p%40w@"]],
+    "host": [cp(x) for x in ["lemonde.fr", "www.lemonde.fr", "theguardian.co.uk", "Blog.Example.COM", "192.168.0.1", "[::1]", "localhost",
+                              "a.b.example.org"]],
+    "port": [cp(x) for x in ["", ":8080", ":80"]],
+    "path": [cp(x) for x in ["", "/", "/a", "/a/", "/a/b.html", "/a//b/", "/a:b/c@d", "/A/B"]],
+    "query": [cp(x) for x in ["", "?", "?q=1", "?a=b:c@d&e=f", "?x"]],
+    "frag": [cp(x) for x in ["", "#", "#f", "#a:b@c=d"]],
+    # the public suffixes the universe's hosts use, labels TLD first (consistency with ural's bundled list is checked at run time)
+    "suffixes": [[cp(l) for l in s.split(".")[::-1]] for s in ["fr", "co.uk", "uk", "com", "org"]],
+    # C13: host chains (suffix atom, then sub-labels from the registrable domain down) and path chains
+    "chains": [[[cp(l) for l in suffix.split(".")[::-1]], [cp(l) for l in subs]] for suffix, subs in
+               [("fr", ["lemonde", "www", "a"]), ("co.uk", ["lemonde", "www", "a"]), ("com", ["evil", "fr", "lemonde"]), ("com", ["example", "blog"])]],
+    "segchain": [cp(x) for x in ["a", "b", "c.html"]],
+}
+
+
 def main():
     d = os.path.join(ROOT, "spec", "data")
     os.makedirs(d, exist_ok=True)
@@ -169,6 +188,8 @@ def main():
     sys.path.insert(0, "/repo")
     from ural.data import ISO_3166_1_COUNTRIES_ALPHA_2  # data the property is stated over, not logic
     NORM["countries"] = [cp(c.lower()) for c in sorted(ISO_3166_1_COUNTRIES_ALPHA_2)]
+    with open(os.path.join(d, "lrugen.json"), "w") as f:
+        json.dump(LRU, f, separators=(",", ":"))
     with open(os.path.join(d, "c05urls.json"), "w") as f:
         json.dump({"urls": [cp(u.replace("\\x00", "\x00")) for u in C05_URLS]}, f, separators=(",", ":"))
     with open(os.path.join(d, "normdata.json"), "w") as f:
